@@ -1,66 +1,18 @@
-import GV.Model.Salt
+import GV.Driver.HashOps
+import GV.Driver.FlagOps
 /-
 gvdriver: reads the oracle's operation lines on stdin and answers each with the model's result, in the
 oracle's output format.  Core-only (links as a native executable).
 -/
-open GV GV.Salt GV.NameHash
+open GV.Driver
 
-def hexDigit (n : Nat) : Char := if n < 10 then Char.ofNat (48 + n) else Char.ofNat (87 + n)
-def toHex (b : List UInt8) : String :=
-  if b.isEmpty then "-" else String.ofList (b.flatMap fun x => [hexDigit (x.toNat / 16), hexDigit (x.toNat % 16)])
-def hexVal (c : Char) : Nat :=
-  if '0' ≤ c ∧ c ≤ '9' then c.toNat - 48 else if 'a' ≤ c ∧ c ≤ 'f' then c.toNat - 87 else 0
-def unhex (s : String) : List UInt8 :=
-  if s == "-" then [] else
-  let rec go : List Char → List UInt8
-    | a :: b :: rest => (hexVal a * 16 + hexVal b).toUInt8 :: go rest
-    | _ => []
-  go s.toList
-def clsOf (s : String) : NameClass := if s == "1" then .exported else if s == "2" then .unexported else .notIdent
-def optHex : Option (List UInt8) → String
-  | some b => toHex b
-  | none => "!panic"
-
-structure St where
-  cfg : Cfg := {}
-  pkgs : List (List UInt8 × List UInt8) := []
+def handlers : List Handler := [hashOps, flagOps]
 
 def step (st : St) (line : String) : St × String :=
-  match line.splitOn " " with
-  | ["seed", s] => ({ st with cfg := { st.cfg with seed := unhex s } }, "ok")
-  | ["seedset", s] =>
-    match seedSet (unhex s) with
-    | .ok b => (st, s!"ok {toHex b} {toHex (seedString b)}")
-    | .error .decode => (st, "err decode")
-    | .error .short => (st, "err short")
-  | ["cfg", l, t, d, dd, cf, tob, gg, bid] =>
-    let c : Cfg := { seed := st.cfg.seed, literals := (l == "1"), tiny := (t == "1"), debug := (d == "1"),
-                     debugDir := unhex dd, ctrlflow := (cf == "1"), testObf := unhex tob,
-                     gogarble := unhex gg, binaryID := unhex bid }
-    ({ st with cfg := c }, "ok")
-  | ["pkg", p, g] => ({ st with pkgs := (unhex p, (unhex g ++ List.replicate 32 0).take 32) :: st.pkgs.filter (·.1 != unhex p) }, "ok")
-  | ["hash", salt, name, cls] => (st, optHex (hashWithCustomSalt st.cfg (unhex salt) (unhex name) (clsOf cls)))
-  | ["hpkg", p, name, cls] =>
-    match st.pkgs.find? (·.1 == unhex p) with
-    | some (path, gaid) => (st, optHex (hashWithPackage st.cfg path gaid (unhex name) (clsOf cls)))
-    | none => (st, "!nopkg")
-  | ["gaction", inp] => (st, optHex (addGarbleToHash st.cfg (unhex inp)))
-  | ["flags", f] => (st, toHex (appendFlags st.cfg (f == "1")))
-  | ["magic"] =>
-    match st.pkgs.find? (·.1 == str "runtime") with
-    | some (_, g) => (st, toString (runtimeHash st.cfg g (str "magic")))
-    | none => (st, if st.cfg.seed.isEmpty then "!panic" else toString (runtimeHash st.cfg [] (str "magic")))
-  | ["entryoff"] =>
-    match st.pkgs.find? (·.1 == str "runtime") with
-    | some (_, g) => (st, toString (runtimeHash st.cfg g (str "entryOffKey")))
-    | none => (st, if st.cfg.seed.isEmpty then "!panic" else toString (runtimeHash st.cfg [] (str "entryOffKey")))
-  | ["encbuildid", h] => (st, toHex (GV.Base64.encode (((unhex h) ++ List.replicate 32 0).take GV.Gen.buildIDHashLength)))
-  | ["decbuildid", s] =>
-    match GV.Base64.decode (unhex s) with
-    | some b => (st, if b.length == GV.Gen.buildIDHashLength then toHex b else "!panic")
-    | none => (st, "!panic")
-  | op :: _ => (st, s!"!unknown-op {op}")
-  | [] => (st, "!unknown-op")
+  let f := line.splitOn " "
+  match handlers.findSome? (fun h => h st f) with
+  | some r => r
+  | none => (st, s!"!unknown-op {f.headD ""}")
 
 partial def loop (h : IO.FS.Stream) (out : IO.FS.Stream) (st : St) : IO Unit := do
   let line ← h.getLine
